@@ -103,11 +103,6 @@ def run : List String → Option String
   | ["realparts", c, o, off, h] => do
     let c ← codecOf c; let o ← parseOrder o; let off ← parseNat off; let b ← bytesOfHex h
     some (realParts c o off b).render
-  | ["realkey", c, o, h] => do
-    -- the key decoder of `realDecoders` alone (ties DrxProps/C05.lean `real_key_mac_pc` to the driver)
-    let c ← codecOf c; let o ← parseOrder o; let b ← bytesOfHex h
-    some (rJ (fun kd => J.arr (kd.map fun (k, l) => J.arr [J.int k, J.arr (l.map fun r => J.obj [("chunkID", J.str r.chunkID), ("index", J.int r.index)])]))
-      ((DirReal.realDecoders c).key o b))
   | _ => none
 
 end Drx.Drv.Dir
